@@ -26,6 +26,23 @@ Definition zt (T : list (Z * Z * Q)) : list (Z * Z * bigQ) := map (fun t => matc
 Definition probe (n : Z) (T : list (Z * Z * bigQ)) (v : list Q) : list bigQ := apply (to_triples T) (Z.to_nat n) (bql v).
 Definition bcd (o : option Q) (M : list (list bigQ)) : bigQ := bcdiag_default (option_map bq o) M.
 Definition tr (T : list (Z * Z * bigQ)) := map (fun t => match t with (r, c, w) => (c, r, w) end) T.
+(* canonical comparison with TWO tolerances: keys in dk (the diagonal positions of constrained dofs) are compared with tolD
+   (relative to the chosen diagonal value; 0 = exactly), every other key with tolF (relative to the scale of the free part) *)
+Fixpoint sp_cmp2 (tolF tolD : bigQ) (dk : list Z) (strict : bool) (model : list (Z * bigQ)) (obs : list (Z * Q)) {struct model} : bool :=
+  match model with
+  | [] => match obs with [] => true | _ => false end
+  | (k, v) :: m' =>
+      let tol := if existsb (Z.eqb k) dk then tolD else tolF in
+      match obs with
+      | [] => negb strict && bq_close tol v 0%bigQ && sp_cmp2 tolF tolD dk strict m' []
+      | (k', v') :: o' =>
+          if Z.eqb k k' then bq_close tol v (bq v') && sp_cmp2 tolF tolD dk strict m' o'
+          else if Z.ltb k k' then negb strict && bq_close tol v 0%bigQ && sp_cmp2 tolF tolD dk strict m' obs
+          else false
+      end
+  end.
+Definition sp_check2 (tolF tolD : Q) (dk : list Z) (strict : bool) (n : Z) (T : list (Z * Z * bigQ)) (obs : list (Z * Q)) : bool :=
+  sp_cmp2 (bq tolF) (bq tolD) dk strict (sp_canon n T) obs.
 ''' + c08_hist.HEADER_HIST
 
 ERR = {None: 0, 'TypeError': 1, 'ValueError': 2, 'IndexError': 3, 'AssertionError': 4, 'RuntimeError': 5}
@@ -112,6 +129,89 @@ def err_name(e):
     return n if n in ERR else 'Other'
 
 
+
+# ------------------------------------------------------------------------------------------------ boundary values / magnitudes
+BCD_VALUES = [0, 0.0, -0.0, -2.5, 5e-324, 1e-300, 1e-12, 1e12, 1e300, None]
+MAGNITUDES = [1e-12, 8.8541878128e-12, 1e-9, 1e-8, 1e-6, 1e-3, 1e3, 1e6, 1e12]
+
+
+def boundary_cases(quick):
+    """Deterministic stream (the same on every seed): boundary VALUES of every numeric option of the four Assemble* modules.
+    bcdiagval 0 / 0.0 / -0.0 / negative / denormal / tiny / huge / None; material data at magnitudes 1e-12 .. 1e12 (and element
+    sizes 1e-6 .. 1e4), always compared relative to the scale of the data; x exactly 0 / 1 / tiny; add_constant = zero
+    matrix; arguments handed over positionally."""
+    out = []
+
+    def elmat(m, k=0):
+        # deterministic integer matrix (non-symmetric), scaled by the power of two 2^k: all float operations stay exact
+        return [[float(((3 * i + 5 * j + i * j) % 9 - 4) * 2.0 ** k) for j in range(m)] for i in range(m)]
+
+    def add(tag, **c):
+        base = dict(sizes=[1.0, 1.0, 1.0], bc=None, bcdiagval=None, const=[], const_fmt=None, matrix_type='csc', exact=False, tag=tag)
+        base.update(c)
+        out.append(base)
+
+    def four(tag, i, bc=True, x=None, pow2=0, gen_exact=True, kw=None, **over):
+        """one case for each of the four modules; `over` holds bcdiagval / const_zero / positional"""
+        kws = dict(stiffness=dict(E=1.5, nu=0.3, plane=('strain', 'stress')[i % 2]), mass=dict(mp=2.0, ndof=1 + i % 3), poisson=dict(mp=0.75))
+        for k_, upd in (kw or {}).items():
+            kws[k_].update(upd)
+        mt = ('csc', 'csr')[i % 2]
+        add(tag, kind='general', grid=[2, 2, 0], elmat=elmat(8, pow2), x=(x or [2, 3, 0, 1]), bc=([0, 5, 17] if bc else None),
+            matrix_type=mt, exact=gen_exact, **over)
+        add(tag, kind='stiffness', grid=[2, 2, 0], sizes=[0.5, 0.4, 0.3], x=(x or [0.7, 1.0, 0.0, 0.25]), bc=([0, 1, 7, 16] if bc else None),
+            kw=kws['stiffness'], matrix_type=mt, **over)
+        add(tag, kind='mass', grid=[2, 2, 0], sizes=[0.3, 0.7, 1.1], x=(x or [1.0, 2.0, 0.5, 0.0]), bc=([2, 3] if bc else None),
+            kw=kws['mass'], matrix_type=mt, **over)
+        add(tag, kind='poisson', grid=[2, 2, 0], sizes=[1.0, 0.5, 0.5], x=(x or [0.2, 1.0, 0.9, 0.0]), bc=([0, 4, 8] if bc else None),
+            kw=kws['poisson'], matrix_type=mt, **over)
+
+    # (g1) the chosen diagonal value of constrained dofs, every boundary value, all four modules
+    for i, v in enumerate(BCD_VALUES):
+        four(f'bcdiagval:{v!r}', i, bcdiagval=v)
+    # (g2) magnitudes of the material data (relative comparison), with bc (default and scaled bcdiagval) and without
+    for i, mag in enumerate(MAGNITUDES):
+        k2 = int(round(np.log2(mag)))
+        four(f'magnitude:{mag:g}', i, bc=(i % 3 != 2), bcdiagval=(None if i % 2 == 0 else 3.0 * mag), pow2=k2,
+             kw=dict(stiffness=dict(E=mag), mass=dict(mp=mag), poisson=dict(mp=mag)))
+    #      ... of the element sizes (thin layers, micrometre and kilometre cells) combined with small / large material data
+    for i, (hs, mag) in enumerate((([1.0, 1.0, 1e-6], 1e-3), ([1e-6, 2e-6, 1e-6], 1.0), ([1e-6, 2e-6, 5e-7], 8.8541878128e-12),
+                                   ([1e4, 2e4, 1e3], 1.0), ([1e4, 5e3, 1e2], 1e9), ([1e-3, 1e3, 1.0], 1e-6))):
+        add(f'sizes:{hs}', kind='stiffness', grid=[2, 1, 0], sizes=hs, x=[1.0, 0.5], bc=[0, 1, 3], kw=dict(E=mag, nu=0.25, plane=('stress', 'strain')[i % 2]))
+        add(f'sizes:{hs}', kind='mass', grid=[2, 1, 0], sizes=hs, x=[1.0, 0.5], bc=([4] if i % 2 else None), kw=dict(mp=mag, ndof=1 + i % 2))
+        add(f'sizes:{hs}', kind='poisson', grid=[2, 1, 0], sizes=hs, x=[1.0, 0.5], bc=(None if i % 2 else [0, 5]), kw=dict(mp=mag))
+    #      ... Poisson ratio at the ends of its range, rho / k negative zero-crossing excluded (documented positive data)
+    for i, nu in enumerate((0.0, 0.499, 0.49999, -0.99, -0.5, 1e-12)):
+        add(f'nu:{nu}', kind='stiffness', grid=[2, 1, 0], sizes=[1.0, 0.5, 2.0], x=[1.0, 0.5], bc=[0, 1, 3], kw=dict(E=1.0, nu=nu, plane=('stress', 'strain')[i % 2]))
+    #      ... constant of the same (small / large) magnitude
+    for mag in (8.8541878128e-12, 1e9):
+        add(f'magnitude+constant:{mag:g}', kind='poisson', grid=[2, 2, 0], sizes=[1.0, 0.5, 0.5], x=[0.2, 1.0, 0.9, 0.0], bc=[0, 4], kw=dict(mp=mag),
+            const=[[0, 0, 2.0 * mag], [1, 3, -1.0 * mag], [4, 4, 0.5 * mag], [8, 2, 3.0 * mag]], const_fmt='csr')
+        add(f'magnitude+constant:{mag:g}', kind='stiffness', grid=[2, 1, 0], sizes=[0.5, 0.4, 0.3], x=[1.0, 0.5], bc=[0, 1], kw=dict(E=mag, nu=0.3, plane='stress'),
+            const=[[0, 0, 2.0 * mag], [1, 3, -1.0 * mag], [4, 4, 0.5 * mag], [8, 2, 3.0 * mag]], const_fmt='csc')
+    #      ... 3-D
+    add('magnitude3d:8.85e-12', kind='poisson', grid=[2, 1, 1], sizes=[0.2, 0.1, 0.3], x=[1.0, 0.3], bc=[0, 7], kw=dict(mp=8.8541878128e-12))
+    add('magnitude3d:1e12', kind='poisson', grid=[1, 1, 2], sizes=[2.0, 2.0, 2.0], x=[1.0, 0.3], kw=dict(mp=1e12))
+    add('magnitude3d:1e-12', kind='mass', grid=[1, 2, 1], sizes=[0.2, 0.1, 0.3], x=[1.0, 0.3], bc=[1], bcdiagval=0.0, kw=dict(mp=1e-12, ndof=1))
+    add('magnitude3d:1e12', kind='mass', grid=[1, 1, 1], sizes=[1e-3, 1e-3, 1e-3], x=[1.0], kw=dict(mp=1e12, ndof=3))
+    add('magnitude3d:1e-12', kind='stiffness', grid=[1, 1, 1], sizes=[0.5, 1.0, 0.25], x=[1.0], bc=[0, 1, 2], bcdiagval=0.0, kw=dict(E=1e-12, nu=0.3, plane='strain'))
+    if not quick:
+        add('magnitude3d:1e12', kind='stiffness', grid=[2, 1, 1], sizes=[1e-3, 2e-3, 1e-3], x=[1.0, 0.1], bc=[0, 1, 2], kw=dict(E=1e12, nu=0.2, plane='strain'))
+        add('magnitude3d:1e-6', kind='stiffness', grid=[1, 1, 2], sizes=[1.0, 1.0, 1e-6], x=[1.0, 0.1], kw=dict(E=1e-6, nu=0.0, plane='strain'))
+    # (g3) boundary values of x: exactly 0, exactly 1, negative zero, tiny (uniform: exact scaling), tiny next to 1
+    for i, xs in enumerate(([0.0] * 4, [1.0] * 4, [-0.0, 0.0, -0.0, 1.0], [2.0 ** -30] * 4, [2.0 ** -100] * 4, [1e-9] * 4)):
+        four(f'x:{xs[0]!r} uniform', i, x=xs, gen_exact=(xs[0] != 1e-9))
+    for i, xs in enumerate(([1.0, 1e-300, 0.0, 5e-324], [1e-9, 1.0, 1e-30, 1e-12], [1e12, 1.0, 1e-12, 0.0])):
+        four(f'x:mixed {xs}', i, x=xs, gen_exact=False)
+    # (g4) add_constant = the zero matrix (no stored entries / explicitly stored zeros; csc and csr)
+    for i, fmt in enumerate(('csc', 'csr', 'csc explicit', 'csr explicit')):
+        four(f'add_constant zero:{fmt}', i, const_zero=fmt, bc=(i % 2 == 0), bcdiagval=(None, 0.0, 4.0, None)[i])
+    # (g5) bc / bcdiagval handed over positionally ("other arguments are passed to AssembleGeneral")
+    for i, v in enumerate((2.0, 0.0, None)):
+        four(f'positional:{v!r}', i, positional=True, bcdiagval=v)
+    return out
+
+
 def run(ctx):
     import pymoto as pym
     import scipy.sparse as sp
@@ -132,7 +232,14 @@ def run(ctx):
                 'was re-assigned (also with another dtype kind int/float/complex, strided views), shared element-matrix objects, Fortran '
                 'order; every response is compared with `arun` over complex rationals (values exact / 1e-9, index structure, dtype kind); '
                 'returned matrices are held and must stay unchanged, the caller overwrites returned matrices, caller-owned arguments '
-                'must stay unchanged')
+                'must stay unchanged; (g) boundary values (deterministic, every seed; boundary_cases): for each of the four modules '
+                'bcdiagval in {0, 0.0, -0.0, -2.5, 5e-324, 1e-300, 1e-12, 1e12, 1e300, None}; material data (E, rho, k; scaled element matrix '
+                'for AssembleGeneral) at 1e-12, 8.85e-12, 1e-9, 1e-8, 1e-6, 1e-3, 1e3, 1e6, 1e12 with default and scaled bcdiagval; element sizes '
+                '1e-6 .. 1e4 (thin layers); Poisson ratio 0, 0.499, 0.49999, -0.99, -0.5, 1e-12; constants of the same magnitude; 3-D cases; '
+                'x uniformly 0 / 1 / -0.0 / 2^-30 / 2^-100 / 1e-9 and mixed with 1e-300, 5e-324, 1e12; add_constant = zero matrix (no entries / '
+                'stored zeros, csc / csr); bc and bcdiagval handed over positionally. All comparisons (correspondence and oracle) are RELATIVE '
+                'to the scale of the data: constrained diagonal positions relative to the chosen value (exact for integer data), every other '
+                'entry relative to the largest free entry; the Coq models get the exact rational value of every float')
     ctx.assumptions += ['bc lists have no duplicates (the property quantifies over boundary-condition SETS; the code adds bcdiagval once per occurrence)',
                         'theorems are about exact (real) arithmetic; float rounding is tied by the exact (integer data) / 1e-9 relative comparison only',
                         'matrix_type: csc/csr in the single-module stream; csc/csr/coo/bsr (matrix and array classes) and a user callable '
@@ -236,6 +343,14 @@ def run(ctx):
         elem_case('mass', 3, hs, mp=rng.choice((1.0, rng.uniform(0.1, 9))), ndof=rng.randint(1, 3))
         elem_case('poisson', 3, hs, mp=rng.choice((1.0, rng.uniform(0.1, 9))))
 
+    # element matrices at small / large magnitudes of the material data and of the element sizes (deterministic, every seed)
+    for i, mag in enumerate((1e-12, 8.8541878128e-12, 1e-8, 1e12)):
+        hs = ([1.0, 0.5, 0.5], [1e-6, 2e-6, 1e-6], [0.2, 0.1, 0.3], [1e3, 2e3, 1e-6])[i]
+        elem_case('poisson', 2, hs, mp=mag)
+        elem_case('mass', 2, hs, mp=mag, ndof=1 + i % 3)
+        elem_case('stiffness', 2, hs, E=mag, nu=(0.3, 0.0, 0.499, -0.5)[i], plane=('strain', 'stress')[i % 2])
+    elem_case('poisson', 3, [0.2, 0.1, 0.3], mp=8.8541878128e-12)
+    elem_case('mass', 3, [1e-3, 2e-3, 1e-3], mp=1e12, ndof=2)
     # ---------------- (c) AssembleGeneral, integer data (exact)
     np_rng = np.random.default_rng(ctx.seed)
     ngen = 70 if quick else 500
@@ -287,6 +402,9 @@ def run(ctx):
         cases.append(dict(kind=kind, grid=[a, b, c], sizes=hs, x=x, bc=bc, bcdiagval=bcd, kw=kw,
                           const=[[r, cc, float(v)] for r, cc, v in Ct], const_fmt=(None if C is None else C.format),
                           matrix_type=rng.choice(('csc', 'csr')), exact=False))
+    # ---------------- (g) boundary values and magnitudes of every numeric option: deterministic, on every seed
+    for c in boundary_cases(quick):
+        cases.append(c)
     # ---------------- (e) malformed
     nmal = 12 if quick else 60
     for t in range(nmal):
@@ -405,19 +523,38 @@ def make_module(pym, sp, c):
         vals = [float(t[2]) for t in c['const']]
         C = sp.coo_matrix((vals, (rows, cols)), shape=(n, n))
         kwargs['add_constant'] = C.tocsr() if c.get('const_fmt') == 'csr' else C.tocsc()
+    elif c.get('const_zero'):
+        # add_constant = the zero matrix: no stored entries at all, or explicitly stored zeros
+        cz_ = c['const_zero']
+        if cz_.endswith('explicit'):
+            idx = list(range(0, n, 2))
+            C = sp.coo_matrix((np.zeros(len(idx)), (idx, idx[::-1])), shape=(n, n))
+        else:
+            C = sp.coo_matrix((n, n), dtype=float)
+        kwargs['add_constant'] = C.tocsr() if cz_.startswith('csr') else C.tocsc()
+    pos = ()
+    if c.get('positional'):
+        # "Other arguments are passed to AssembleGeneral": bc (and bcdiagval where the signature allows it) given positionally
+        pos = (kwargs.pop('bc'),) if 'bc' in kwargs else (None,)
+        if kind in ('general', 'stiffness', 'poisson') and 'bcdiagval' in kwargs:
+            pos = pos + (kwargs.pop('bcdiagval'),)
+    so = pym.Signal('A')
     if kind == 'general':
-        m = pym.AssembleGeneral(s, domain=d, element_matrix=Ke, **kwargs)
+        m = pym.AssembleGeneral(s, so, d, Ke, *pos, **kwargs) if pos else pym.AssembleGeneral(s, domain=d, element_matrix=Ke, **kwargs)
         Ke_impl = Ke
     elif kind == 'stiffness':
-        m = pym.AssembleStiffness(s, domain=d, e_modulus=c['kw']['E'], poisson_ratio=c['kw']['nu'], plane=c['kw']['plane'], **kwargs)
+        skw = dict(e_modulus=c['kw']['E'], poisson_ratio=c['kw']['nu'], plane=c['kw']['plane'])
+        m = pym.AssembleStiffness(s, so, d, *pos, **skw, **kwargs) if pos else pym.AssembleStiffness(s, domain=d, **skw, **kwargs)
         Ke_impl = m.stiffness_element
     elif kind == 'mass':
         if c.get('bcdiagval') is None:
             kwargs.pop('bcdiagval', None)
-        m = pym.AssembleMass(s, domain=d, material_property=c['kw']['mp'], ndof=c['kw']['ndof'], **kwargs)
+        mkw = dict(material_property=c['kw']['mp'], ndof=c['kw']['ndof'])
+        m = pym.AssembleMass(s, so, d, *pos, **mkw, **kwargs) if pos else pym.AssembleMass(s, domain=d, **mkw, **kwargs)
         Ke_impl = m.el_mat
     else:
-        m = pym.AssemblePoisson(s, domain=d, material_property=c['kw']['mp'], **kwargs)
+        pkw = dict(material_property=c['kw']['mp'])
+        m = pym.AssemblePoisson(s, so, d, *pos, **pkw, **kwargs) if pos else pym.AssemblePoisson(s, domain=d, **pkw, **kwargs)
         Ke_impl = m.poisson_element
     return d, m, Ke_impl, n, ndof
 
@@ -450,7 +587,10 @@ def build_case(ctx, pym, sp, c, add):
     bcq = opt(c.get('bc'), zl)
     xq = '(bql ' + ql([fr(v) for v in c['x']]) + '%Q)'
     label = (kind, tuple(c['grid']), tuple(c['sizes']), str(c.get('kw')), str(c.get('bc')), c.get('bcdiagval'), len(c.get('const') or []),
-             c.get('matrix_type'), tuple(c['x']), c.get('malformed'), c.get('corpus'), str(c.get('elmat'))[:200])
+             c.get('matrix_type'), tuple(c['x']), c.get('malformed'), c.get('corpus'), str(c.get('elmat'))[:200],
+             c.get('tag'), repr(c.get('bcdiagval')), c.get('const_zero'), c.get('positional'))
+    if c.get('tag'):
+        ctx.count('boundary stream: ' + c['tag'].split(':')[0])
     ctx.count(f'asm {kind} dim{dim}' + (' malformed' if c.get('malformed') else ''))
     ctx.count('bc ' + ('none' if c.get('bc') is None else 'empty' if len(c['bc']) == 0 else 'set'))
     ctx.count('bcdiagval ' + ('default' if c.get('bcdiagval') is None else 'given'))
@@ -471,13 +611,26 @@ def build_case(ctx, pym, sp, c, add):
     cst = trip([(int(t[0]), int(t[1]), fr(t[2])) for t in (c.get('const') or [])])
     Tdef = f'(asm_matrix {g} Ke {bcq} (bcd {bcdq}%Q Ke) (zt {cst}) {xq})'
     T = 'T'
-    scale = max([1.0] + [abs(float(v)) for _, v in items])
-    tol = '0' if c.get('exact') else f'(rel {qlit(fr(scale))})'
-    strict = vlib.blit(is_sparse and not c.get('const'))
+    # tolerances RELATIVE to the scale of the data (no absolute floor): the diagonal positions of constrained dofs are
+    # compared relative to the chosen diagonal value (+ constant there), all other entries relative to the largest of them
+    dkeys = sorted(set(int(q) * n + int(q) for q in (c.get('bc') or [])))
+    dset = set(dkeys)
+    cabs = [abs(float(t[2])) for t in (c.get('const') or [])]
+    bcd_impl = abs(float(c['bcdiagval'])) if c.get('bcdiagval') is not None else 0.0
+    scaleF = max([0.0] + cabs + [abs(float(v)) for k, v in items if k not in dset])
+    scaleD = max([0.0, bcd_impl] + cabs + [abs(float(v)) for k, v in items if k in dset])
+    scale = max(scaleF, scaleD)
+    c['_scaleF'], c['_scaleD'] = scaleF, scaleD
+    tol = '0' if c.get('exact') else f'(rel {qlit(fr(scaleF))})'
+    tolD = '0' if c.get('exact') else f'(rel {qlit(fr(scaleD))})'
+    strict = vlib.blit(is_sparse and not c.get('const') and not c.get('const_zero'))
     size = sum(len(str(v)) for _, v in items)
     parts = [f'Z.eqb (asm_status {g} Ke {bcq} {xq}) 0']
     if size < 60000:
-        parts.append(f'sp_check {tol} {strict} {n} {T} {kv(items)}')
+        if dkeys:
+            parts.append(f'sp_check2 {tol} {tolD} {zl(dkeys)} {strict} {n} {T} {kv(items)}')
+        else:
+            parts.append(f'sp_check {tol} {strict} {n} {T} {kv(items)}')
         ctx.count('compare full-triples')
     else:
         # large matrices: number of stored entries + probes A@v, A.T@v with integer vectors
@@ -490,12 +643,12 @@ def build_case(ctx, pym, sp, c, add):
                 v[int(rs.integers(0, n))] = 1
             Av = A @ v
             Atv = A.T @ v
-            sc = max(1.0, float(np.abs(Av).max()), float(np.abs(Atv).max()))
+            sc = max(scale, float(np.abs(Av).max()), float(np.abs(Atv).max()))
             cmpf = 'bql_close 0' if c.get('exact') else f'bql_close (rel {qlit(fr(sc))})'
             vq = ql([fr(t) for t in v]) + '%Q'
             parts.append(f'{cmpf} (probe {n} {T} {vq}) {ql([fr(t) for t in np.asarray(Av).ravel()])}%Q')
             parts.append(f'{cmpf} (probe {n} (tr {T}) {vq}) {ql([fr(t) for t in np.asarray(Atv).ravel()])}%Q')
-        if is_sparse and not c.get('const'):
+        if is_sparse and not c.get('const') and not c.get('const_zero'):
             parts.append(f'Nat.eqb (length (sp_canon {n} {T})) {len(items)}')
     add(label, f'(let Ke := {Kmodel} in let T := {Tdef} in ' + ' && '.join(parts) + ')', nontrivial,
         case={k: v for k, v in c.items() if not k.startswith('_')})
@@ -625,33 +778,54 @@ def oracle(ctx, pym, sp, cases, elem_obs=(), thorough=False):
             ref[:, bc] = 0
             for q in bc:
                 ref[q, q] += bcd
+        cabs = 0.0
         if c.get('const'):
             for r_, c_, v_ in c['const']:
                 ref[int(r_), int(c_)] += v_
-        scale = max(1.0, float(np.abs(ref).max()))
-        if Ad.shape != ref.shape or np.abs(Ad - ref).max() > 1e-9 * scale:
-            bad('A == mask_bc(sum_e x_e scatter(K_e)) + bcdiagval*I_bc + constant', None, float(np.abs(Ad - ref).max()) if Ad.shape == ref.shape else list(Ad.shape))
+                cabs = max(cabs, abs(v_))
+        # every comparison is RELATIVE to the scale of the data it concerns (no absolute floor): the diagonal positions of
+        # the constrained dofs relative to the chosen value, everything else relative to the free part
+        dmask = np.zeros((n, n), dtype=bool)
+        if bc is not None and len(bc):
+            dmask[list(bc), list(bc)] = True
+        with np.errstate(all='ignore'):
+            scaleF = max(cabs, float(np.abs(np.where(dmask, 0.0, ref)).max()))
+            scaleD = max(cabs, abs(float(bcd)))
+        scale = max(scaleF, scaleD)
+        if Ad.shape != ref.shape:
+            bad('A == mask_bc(sum_e x_e scatter(K_e)) + bcdiagval*I_bc + constant', list(ref.shape), list(Ad.shape))
+        else:
+            dif = np.abs(Ad - ref)
+            eF = float(np.where(dmask, 0.0, dif).max())
+            eD = float(np.where(dmask, dif, 0.0).max())
+            if not (eF <= 1e-9 * scaleF):
+                bad('A == mask_bc(sum_e x_e scatter(K_e)) + bcdiagval*I_bc + constant', f'free part within 1e-9 of its scale {scaleF}', eF)
+            if not (eD <= 1e-9 * scaleD):
+                bad('constrained dofs carry the chosen value on their diagonal', f'{bcd} (within 1e-9 relative)', eD)
         if kind == 'general':
             continue
         # ---- physics, on the unconstrained matrix without constant (computed from the element matrix the module exposes)
-        ksc = max(1e-300, float(np.abs(Ke).max()))
+        ksc = float(np.abs(Ke).max())
+        fsc = float(np.abs(free).max())
         refK = ref_element(kind, dim, c['sizes'], c['kw'])
-        if refK.shape != Ke.shape or np.abs(refK - Ke).max() > 1e-9 * max(1e-300, float(np.abs(refK).max())):
+        if refK.shape != Ke.shape or not (np.abs(refK - Ke).max() <= 1e-9 * float(np.abs(refK).max())):
             bad('element matrix equals the exact element integral', None, float(np.abs(refK - Ke).max()) if refK.shape == Ke.shape else list(Ke.shape))
-        if np.abs(Ke - Ke.T).max() > 1e-9 * ksc:
+        if not (np.abs(Ke - Ke.T).max() <= 1e-9 * ksc):
             bad('element matrix symmetric', 0.0, float(np.abs(Ke - Ke.T).max()))
         if bc is None and not c.get('const'):
-            if np.abs(Ad - Ad.T).max() > 1e-9 * scale:
+            if not (np.abs(Ad - Ad.T).max() <= 1e-9 * scale):
                 bad('assembled matrix symmetric', 0.0, float(np.abs(Ad - Ad.T).max()))
         if np.all(x >= 0):
-            ev = np.linalg.eigvalsh((free + free.T) / 2)
-            if ev.min() < -1e-9 * max(1.0, abs(ev).max()):
-                bad('positive semi-definite for x >= 0', '>= 0', float(ev.min()))
+            # eigenvalues of the matrix scaled to unit size (eigvalsh works on the scaled copy: no under/overflow)
+            fs = free / fsc if fsc > 0 else free
+            ev = np.linalg.eigvalsh((fs + fs.T) / 2)
+            if ev.min() < -1e-9 * abs(ev).max():
+                bad('positive semi-definite for x >= 0', '>= 0', float(ev.min()) * fsc)
         vol = float(np.prod(c['sizes']))   # 2-D: in-plane area times thickness
         if kind == 'stiffness':
             for r in rigid_modes(d, dim):
                 res = free @ r
-                if np.abs(res).max() > 1e-9 * max(1.0, np.abs(free).max() * np.abs(r).max()):
+                if not (np.abs(res).max() <= 1e-9 * fsc * np.abs(r).max()):
                     bad('stiffness annihilates rigid-body motions', 0.0, float(np.abs(res).max()))
         elif kind == 'mass':
             rho = c['kw']['mp']
@@ -661,19 +835,19 @@ def oracle(ctx, pym, sp, cases, elem_obs=(), thorough=False):
                 one = one.ravel()
                 tot = one @ free @ one
                 exp = rho * vol * x.sum()
-                if abs(tot - exp) > 1e-9 * max(1.0, abs(exp)):
+                if not (abs(tot - exp) <= 1e-9 * abs(rho * vol) * np.abs(x).sum()):
                     bad('total mass rho*V*sum(x) per direction', exp, float(tot))
         else:
             kcond = c['kw']['mp']
             one = np.ones(n)
-            if np.abs(free @ one).max() > 1e-9 * max(1.0, np.abs(free).max()):
+            if not (np.abs(free @ one).max() <= 1e-9 * fsc):
                 bad('Poisson matrix annihilates constants', 0.0, float(np.abs(free @ one).max()))
             pos = d.get_node_position().T
             gvec = np.array([1.0, -2.0, 0.5])[:dim]
             u = pos @ gvec + 0.75
             en_ = u @ free @ u
             exp = kcond * vol * float(gvec @ gvec) * x.sum()
-            if abs(en_ - exp) > 1e-9 * max(1.0, abs(exp)):
+            if not (abs(en_ - exp) <= 1e-9 * max(abs(kcond * vol) * float(gvec @ gvec) * np.abs(x).sum(), fsc * float(u @ u) * 1e-4)):
                 bad('Poisson energy of a linear field k*V*|g|^2*sum(x)', exp, float(en_))
 
 
